@@ -61,32 +61,42 @@ theorem def_outer (i : Nat) (name : String) (ai : Nat) (po ar va ko kd kw df : L
     (hr : ∃ fns, ∀ q, q ∈ cI.read ↔ q ∈ (effSs fns body).read)
     (blk : Block) (hblk : blk = mkDefBlock (.functionDef i name (.arguments ai po ar va ko kd kw df) body decos returns isAsync))
     (hG : declBelowBs true (blk.params ++ blk.binds ++ blk.globals ++ blk.nonlocals) blk.children = [])
-    (hN : declBelowBs false (blk.params ++ blk.binds ++ blk.globals ++ blk.nonlocals) blk.children = [])
     (hL : leaksBs (blk.params ++ blk.binds ++ blk.globals ++ blk.nonlocals) blk.children = [])
     (hS : shadowBs blk.children = []) :
-    ∀ x, (((QN.sym x ∈ cI.read ∧ QN.sym x ∉ cI.bound) ∨ QN.sym x ∈ cI.nonlocals) ∧ QN.sym x ∉ cI.globals) ↔ x ∈ outerB blk := by
+    ∀ x, (QN.sym x ∈ cI.passedOn ∧ QN.sym x ∉ cI.globals) ↔ x ∈ outerB blk := by
   obtain ⟨fns, hr⟩ := hr
   subst hblk
   have hC := collectSs_spec body hfb hsb { params := (po ++ ar ++ ko ++ va ++ kw).filterMap paramName }
   obtain ⟨new, hnew, hcov⟩ := hC.children
   simp only [List.nil_append] at hnew
-  simp only [mkDefBlock, Acc.toBlock, Block.params, Block.binds, Block.globals, Block.nonlocals, Block.children] at hG hN hL hS
+  simp only [mkDefBlock, Acc.toBlock, Block.params, Block.binds, Block.globals, Block.nonlocals, Block.children] at hG hL hS
   simp only [mkDefBlock]
   generalize hin : collectSs body { params := (po ++ ar ++ ko ++ va ++ kw).filterMap paramName } = inner at *
   have HI : Hyp (inner.params ++ inner.binds ++ inner.globals ++ inner.nonlocals)
       (inner.params ++ inner.binds ++ inner.globals ++ inner.nonlocals)
       (inner.params ++ inner.binds ++ inner.globals ++ inner.nonlocals) inner :=
-    ⟨fun x hx => by simp [hx], fun x hx => by simp [hx], fun x hx => by simp [hx], fun x hx => hx, fun x hx => hx, hG, hN, hL, hS⟩
+    ⟨fun x hx => by simp [hx], fun x hx => by simp [hx], fun x hx => by simp [hx], fun x hx => hx, fun x hx => hx, hG, hL, hS⟩
   have RI := readRelSs body hfb hsb fns _ _ _ { params := (po ++ ar ++ ko ++ va ++ kw).filterMap paramName }
     (by rw [hin]; exact HI)
   rw [hin] at RI
   have hrel := fun_block_rel i .function name rfl inner.params (ownLeaksSs body) inner (effSs fns body)
-    ({ read := cI.read, bound := cI.bound } : Eff) rfl hC.walrus (by intro x; exact hr _)
+    ({ read := cI.read, bound := cI.bound, nonlocals := cI.nonlocals, globals := cI.globals } : Eff) rfl hC.walrus
+    (by intro x; exact hr _)
     (by
       intro x
       show QN.sym x ∈ cI.bound ↔ _
       rw [hb, hC.params, mem_specParams_iff, hC.binds, hC.nonlocals]
       simp)
+    (by intro x; show QN.sym x ∈ cI.nonlocals ↔ _; rw [hn, hC.nonlocals]; simp)
+    (by intro x; show QN.sym x ∈ cI.globals ↔ _; rw [hg, hC.globals]; simp)
+    (by
+      intro x hx
+      show QN.sym x ∈ cI.read
+      have hx' : x ∈ ownDeclsSs false body := by
+        have := (hC.nonlocals x).mp hx
+        simpa using this
+      rw [hr]
+      exact (effSs_declRead body fns).sub _ (Or.inl (((effSs_sets body hfb fns).nonlocals x).mpr hx')))
     (by
       intro x hx
       by_cases hd : x ∈ inner.params ++ inner.binds ++ inner.globals ++ inner.nonlocals
@@ -98,14 +108,10 @@ theorem def_outer (i : Nat) (name : String) (ai : Nat) (po ar va ko kd kw df : L
     (by rw [hC.params] at RI ⊢; exact RI)
   intro x
   have hgx : QN.sym x ∈ cI.globals ↔ x ∈ inner.globals := by rw [hg, hC.globals]; simp
-  have hnx : QN.sym x ∈ cI.nonlocals ↔ x ∈ inner.nonlocals := by rw [hn, hC.nonlocals]; simp
   by_cases h1 : x ∈ inner.globals
   · simp [hgx, h1, outerB, Acc.toBlock, BlockKind.functionLike]
-  · by_cases h2 : x ∈ inner.nonlocals
-    · simp [hgx, hnx, h1, h2, outerB, Acc.toBlock, BlockKind.functionLike]
-    · have := hrel x h1 h2
-      simp only [QSet.mem_diff] at this
-      rw [hgx, hnx, ← this]
-      simp [h1, h2]
+  · have := hrel x h1
+    rw [hgx, ← this]
+    simp [h1, Scope.passedOn]
 
 end Malt.Analysis
